@@ -78,7 +78,9 @@ let srv_case ts : str =
     let dirs = L.init nd (fun _ -> let o = tn ts in let l = tn ts in let ok = ti ts in let raw = bytes_of_hex (tok ts) in
                                    ((o, l), if ok = 1 then Some raw else None)) in
     let file = bytes_of_hex (tok ts) in
-    (name, { c_tag = tag; c_minz = minz; c_maxz = maxz; c_ext = req; c_root = (ro, rl); c_leaf_base = lb; c_tile_base = tb; c_dirs = dirs; c_file = file })) in
+    let mo = tn ts in let ml = tn ts in let mbody = bytes_of_hex (tok ts) in let jbody = bytes_of_hex (tok ts) in
+    (name, { c_tag = tag; c_minz = minz; c_maxz = maxz; c_ext = req; c_root = (ro, rl); c_leaf_base = lb; c_tile_base = tb; c_dirs = dirs; c_file = file;
+             c_meta_off = mo; c_meta_len = ml; c_metabody = mbody; c_jsonbody = jbody })) in
   let _e = tok ts in let _n = ti ts in
   let name_str n = "a" ^ string_of_n n in
   let tag_str t = (match t with N0 -> "" | _ -> "v" ^ string_of_n t) in
@@ -96,6 +98,7 @@ let srv_case ts : str =
       let ms = (match kind with
         | "S" -> let rid = ti ts in let name = tn ts in let z = tn ts in let x = tn ts in let y = tn ts in let ext = tn ts in
                  Some (MStart (nat_of_int rid, name, z, x, y, ext))
+        | "P" -> let rid = ti ts in let name = tn ts in let kind = tn ts in Some (MStartMeta (nat_of_int rid, name, kind))
         | "R" -> let name = tn ts in let tag = tn ts in let o = tn ts in let l = tn ts in
                  (* optional fault kind *)
                  (match ts.t with
@@ -110,17 +113,26 @@ let srv_case ts : str =
       (match ms with
        | None -> dead := true
        | Some m ->
-         if not !dead then
-           (match macro !st m with
-            | Some s' -> st := s'
-            | None -> dead := true));
+         if not !dead then begin
+           (* a release lets every call blocked with these arguments proceed (the harness does the same) *)
+           let times = (match m with
+             | MRelease (n, e, o, l) | MFault (n, e, o, l, _) ->
+               max 1 (L.length (L.filter (fun c -> c = (((n, e), o), l)) (pending_calls (!st).x_sys)))
+             | _ -> 1) in
+           for _ = 1 to times do
+             if not !dead then
+               (match macro !st m with
+                | Some s' -> st := s'
+                | None -> dead := true)
+           done
+         end);
       if !dead then out := "REJECT" :: !out
       else begin
         let calls = L.sort compare (L.map (fun (((n, e), o), l) -> S.concat "/" [name_str n; tag_str e; string_of_n o; string_of_n l]) (pending_calls (!st).x_sys)) in
         let dones = L.rev (!st).x_sys.dones in
         let fresh = L.filteri (fun i _ -> i >= !printed) dones in
         printed := L.length dones;
-        let dn = L.sort compare (L.map (fun ((rid, _q), r) -> let (stt, body) = status_body r in
+        let dn = L.sort compare (L.map (fun ((rid, q), r) -> let (stt, body) = status_body q r in
                     ignore rid; S.concat ":" [string_of_n stt; (if int_of_n stt = 200 then hex_of_bytes body else "-")]) fresh) in
         out := ("calls=[" ^ S.concat "," calls ^ "] done=[" ^ S.concat "," dn ^ "] size=" ^ string_of_z (!st).x_total) :: !out
       end;
